@@ -461,7 +461,7 @@ func makeReplay(p *Prog, id string, v *violation) (string, bool, string) {
 		rep["confirmed_on_real_code"] = true
 		confirmed = true
 		note = "bounded check executed the real code: failing case in the replay output"
-	} else if o.Status == "failed" || len(o.Model) > 0 {
+	} else if (o.Status == "failed" || len(o.Model) > 0) && !strings.HasPrefix(o.Unit, "script:") {
 		ok, out, test := replayOnRealCode(p, id, o)
 		rep["replay_test"] = test
 		rel, _ := splitUnit(o.Unit)
